@@ -45,9 +45,9 @@ func genIPv6(t *rapid.T) string {
 			parts[i] = h()
 		}
 		s = strings.Join(parts, ":")
-	case 3: // compressed in the middle
-		a := rapid.IntRange(1, 3).Draw(t, "a")
-		b := rapid.IntRange(1, 3).Draw(t, "b")
+	case 3: // compressed anywhere: a groups, "::", b groups, a+b <= 7 (so up to eight colons, at either end too)
+		a := rapid.IntRange(0, 7).Draw(t, "a")
+		b := rapid.IntRange(0, 7-a).Draw(t, "b")
 		var l, r []string
 		for i := 0; i < a; i++ {
 			l = append(l, h())
@@ -222,7 +222,7 @@ func runC20(c c20Case) vh.Result {
 
 var c20 = vh.Define(&vh.Def[c20Case]{
 	Property: "C20", Name: "address",
-	Rule: "hosts = DNS names (1-4 labels, digits, hyphens, optional trailing dot), IPv4 literals, IPv6 literals in 8 shapes (::, ::1, full, compressed middle/leading/trailing, IPv4-mapped, zoned; either case) bracketed or bare, x port absent / present (0-65535, weighted to well-known values), and ws:// / wss:// URLs with optional port and path, in half of them with a host part other than a DNS name (IPv4, IPv6 bracketed / bare / zoned, and 15 shapes a strict URL parser refuses: the scheme alone selects the transport); bare IPv6 followed by :port is excluded and counted; oracle = net.SplitHostPort of the address the transport dials (as returned by NewClientTransport / NewComponentTransport, and as built into a Client by NewClient), host unchanged, port kept or 5222, transport type per scheme, components refuse ws/wss with ErrTransportProtocolNotSupported; non-trivial = IPv6 host or explicit port",
+	Rule: "hosts = DNS names (1-4 labels, digits, hyphens, optional trailing dot), IPv4 literals, IPv6 literals in 8 shapes (::, ::1, full, compressed with 0-7 groups on either side of the '::' (up to eight colons), short leading/trailing compression, IPv4-mapped, zoned; either case) bracketed or bare, x port absent / present (0-65535, weighted to well-known values), and ws:// / wss:// URLs with optional port and path, in half of them with a host part other than a DNS name (IPv4, IPv6 bracketed / bare / zoned, and 15 shapes a strict URL parser refuses: the scheme alone selects the transport); bare IPv6 followed by :port is excluded and counted; oracle = net.SplitHostPort of the address the transport dials (as returned by NewClientTransport / NewComponentTransport, and as built into a Client by NewClient), host unchanged, port kept or 5222, transport type per scheme, components refuse ws/wss with ErrTransportProtocolNotSupported; non-trivial = IPv6 host or explicit port",
 	Quick: 100000, Thorough: 4000000,
 	Gen: genC20, Run: runC20,
 })
